@@ -127,6 +127,24 @@ def main():
         pairs = '; '.join('(shape_%s, canon_%s)' % (S.ident(k), S.ident(k)) for k in pk[prop])
         out.append('(* %s: %s *)' % (prop, ', '.join('%s:%s' % k for k in pk[prop])))
         out.append('Definition shapes_ok_%s : bool := forallb (fun p => zlist_eqb (fst p) (snd p)) [%s].' % (prop, pairs))
+    # local variable names of every function of every file a translator reads (harness/tables_shape.restore_locals)
+    from harness import tables as T
+    if os.path.exists(S.LOCALS_FILE):
+        os.unlink(S.LOCALS_FILE)
+    S._LOCALS[0] = None
+    T.SRC_SEEN.clear()
+    T.generate()
+    rec = {}
+    for rel in sorted(T.SRC_SEEN):
+        try:
+            tree = ast.parse(open(os.path.join(T.PY, rel)).read())
+        except (IOError, SyntaxError):
+            continue
+        rec[rel] = {q: S.locals_in_order(fn) for q, fn in S.functions_of(tree).items()}
+    with open(S.LOCALS_FILE, 'w') as f:
+        json.dump(rec, f, indent=0, sort_keys=True)
+    S._LOCALS[0] = None
+    print('recorded local names of %d functions in %d files' % (sum(len(v) for v in rec.values()), len(rec)))
     with open(os.path.join(HERE, 'coq', 'theories', 'Base', 'ShapeCanon.v'), 'w') as f:
         f.write('\n'.join(out) + '\n')
     with open(os.path.join(HERE, 'shape_canon.txt'), 'w') as f:
